@@ -792,7 +792,7 @@ impl Scenario for NodesScenario {
         if tier == "quick" {
             200_000
         } else {
-            6_000_000
+            20_000_000
         }
     }
     fn run(&self, src: &mut Source, obs: &mut Observer) -> Result<(), Violation> {
